@@ -33,6 +33,7 @@ type table struct {
 	Hp     []string `json:"hp"`
 	Chains []string `json:"chains"`
 	Stale  []string `json:"stale"`
+	Old    []string `json:"old"`
 }
 type vector struct {
 	Stale  []string `json:"stale"`
@@ -177,6 +178,13 @@ func main() {
 			switch o.Op {
 			case "setup":
 				err = h.SetupPortMapping(append([]k8s.Port{}, mapsOf[o.Pod]...))
+			case "setupold":
+				// the same pod name and ports with the address of an earlier incarnation
+				oldPorts := append([]k8s.Port{}, mapsOf[o.Pod]...)
+				for i := range oldPorts {
+					oldPorts[i].PodIP = "172.16.9.99"
+				}
+				err = h.SetupPortMapping(oldPorts)
 			case "clean":
 				err = h.CleanPortMapping(append([]k8s.Port{}, mapsOf[o.Pod]...))
 			default:
@@ -204,6 +212,10 @@ func main() {
 			}
 			// chains: every expected mapping has its chain with masquerade + DNAT to its pod; stale chains as expected; nothing else
 			wantChains := map[string]bool{}
+			isOld := map[string]bool{}
+			for _, id := range exp.Old {
+				isOld[id] = true
+			}
 			for _, id := range exp.Chains {
 				var port *k8s.Port
 				for _, ps := range mapsOf {
@@ -212,6 +224,11 @@ func main() {
 							port = &ps[i]
 						}
 					}
+				}
+				if isOld[id] && port != nil {
+					cp := *port
+					cp.PodIP = "172.16.9.99"
+					port = &cp
 				}
 				ch := s.hp[id]
 				if ch == "" {
